@@ -73,6 +73,8 @@ pub struct CodecWFamily;
 
 struct CodecWExec {
     codec: Codec,
+    /// a second arena, not the codec's own: source of "foreign" anchored input
+    foreign: Option<ByteArena>,
     bufs: Vec<Box<[u8]>>,
     base_ordinal: u64,
     base_chunks: usize,
@@ -214,6 +216,9 @@ impl CodecWExec {
                 .map(|(_, l, o)| (*o - self.base_ordinal, *l))
                 .collect();
             mine.sort();
+            if let Some(a) = self.foreign.as_ref() {
+                so.obs.push(format!("S a0 rem={}", a.remaining()));
+            }
             so.obs.push(format!(
                 "L live={}",
                 if mine.is_empty() { "-".to_string() } else { mine.iter().map(|(o, _)| format!("c{}", o)).collect::<Vec<_>>().join(",") }
@@ -228,6 +233,9 @@ impl CodecWExec {
                 .map(|(_, l, o)| (*o - self.base_ordinal, *l))
                 .collect();
             mine.sort();
+            if let Some(a) = self.foreign.as_ref() {
+                so.obs.push(format!("S a0 rem={}", a.remaining()));
+            }
             so.obs.push(format!(
                 "L live={}",
                 if mine.is_empty() { "-".to_string() } else { mine.iter().map(|(o, _)| format!("c{}", o)).collect::<Vec<_>>().join(",") }
@@ -321,6 +329,27 @@ impl Exec for CodecWExec {
                         Codec::VDec(d) => Some(d.decode_copy(&bytes)),
                         _ => return StepOut::bad(),
                     },
+                    "f" => {
+                        let mut rd = &bytes[..];
+                        let a = if n == 0 {
+                            owning_iovec::AnchoredSlice::default()
+                        } else {
+                            self.foreign.get_or_insert_with(ByteArena::new).read_n(&mut rd, n, att).expect("slice reader")
+                        };
+                        match &mut self.codec {
+                            Codec::Enc(e) => {
+                                e.encode_anchored(a);
+                                None
+                            }
+                            Codec::VEnc(e) => {
+                                e.encode_anchored(a);
+                                None
+                            }
+                            Codec::Dec(d) => Some(d.decode_anchored(a)),
+                            Codec::VDec(d) => Some(d.decode_anchored(a)),
+                            _ => return StepOut::bad(),
+                        }
+                    }
                     "a" => {
                         let mut rd = &bytes[..];
                         match &mut self.codec {
@@ -357,6 +386,11 @@ impl Exec for CodecWExec {
                         // keep the output observable, stop decoding
                         self.failed = true;
                     }
+                }
+            }
+            ["foreign_flush"] => {
+                if let Some(a) = self.foreign.as_mut() {
+                    a.flush_cache();
                 }
             }
             ["arena_flush"] => {
@@ -538,6 +572,7 @@ impl Exec for CodecWExec {
 
     fn finish(&mut self) -> StepOut {
         let mut so = StepOut::default();
+        self.foreign = None;
         // ---- C10 streaming oracle: footprint independent of the amount streamed
         // (three chunks of the largest size the arena allocates for codec requests, plus slack)
         if self.fed > 0 {
@@ -581,6 +616,7 @@ impl Family for CodecWFamily {
         let (_, next) = ByteArena::verif_live_chunks();
         Box::new(CodecWExec {
             codec: Codec::None,
+            foreign: None,
             bufs: vec![],
             base_ordinal: next,
             base_chunks: ByteArena::num_live_chunks(),
@@ -610,6 +646,31 @@ impl Family for CodecWFamily {
         let decoder = rng.chance(1, 4);
         // streaming soak cases: many medium pieces, drain everything after each call
         let soak = !decoder && !tiny && (idx % 8 == 0);
+        if decoder && rng.chance(1, 4) {
+            // a valid record whose bytes arrive as ONE anchored slice from a FOREIGN arena: a short chunk
+            // (copied, plus the owed stuff sequence) and then a long chunk that is borrowed; afterwards
+            // every other holder of the foreign chunk goes away and the consumer drains only part
+            ops.push("dec_new prod".to_string());
+            let head = rng.range(0, 40) as usize;
+            let tail = rng.range(257, 700) as usize;
+            let mut payload: Vec<u8> = (0..head).map(|k| (k as u8).wrapping_mul(7) | 1).collect();
+            payload.extend([0xFE, 0xFD]);
+            payload.extend((0..tail).map(|k| ((k as u8).wrapping_mul(11)) & 0x7F));
+            let mut e = Encoder::new();
+            e.encode_copy(&payload);
+            let wire = e.finish().flatten().unwrap_or_default();
+            ops.push(format!("feed f {}", to_hex(&wire)));
+            ops.push("foreign_flush".into());
+            match rng.below(3) {
+                0 => ops.push("drain_slices 1".into()),
+                1 => ops.push(format!("drain_bytes {}", head + 2)),
+                _ => ops.push(format!("drain_bytes {}", rng.range(1, 45))),
+            }
+            ops.push("arena_flush".into());
+            ops.push("finish".into());
+            ops.push("drain_bytes 100".into());
+            return ops;
+        }
         if decoder && rng.chance(1, 3) {
             // an anchored piece that decodes a long (borrowed) payload run and THEN hits a bad header
             // byte, after which the arena lets go of its chunk: the output must stay readable
@@ -650,7 +711,7 @@ impl Family for CodecWFamily {
             for _ in 0..n {
                 let len = rng.range(0, if tiny { 12 } else { 400 }) as usize;
                 let v: Vec<u8> = (0..len).map(|_| if rng.chance(1, 3) { rng.range(0, 5) as u8 } else { rng.next() as u8 }).collect();
-                ops.push(format!("feed {} {}", rng.pick(&["b", "c", "a"]), to_hex(&v)));
+                ops.push(format!("feed {} {}", rng.pick(&["b", "c", "a", "f"]), to_hex(&v)));
                 if rng.chance(1, 3) {
                     ops.push("drain_all".into());
                 }
@@ -679,7 +740,7 @@ impl Family for CodecWFamily {
             // short under production limits (tiny limits cover the dense cases)
             let dens = if !tiny && len > 1500 { *rng.pick(&[0u64, 0, 1, 8]) } else { *rng.pick(&[0u64, 0, 1, 8, 64, 200, 256]) };
             let seed = rng.next() >> 16;
-            let m = if soak { *rng.pick(&["c", "c", "c", "b", "a"]) } else { *rng.pick(&["b", "c", "a"]) };
+            let m = if soak { *rng.pick(&["c", "c", "c", "b", "a"]) } else { *rng.pick(&["b", "c", "a", "f"]) };
             ops.push(format!("feed {} gen:{}:{}:{}", m, len, seed, if soak { dens.min(1) } else { dens }));
             if !soak && rng.chance(1, 4) {
                 let count = rng.range(0, 12) as usize;
